@@ -2,6 +2,7 @@ package smtp
 
 import (
 	"context"
+	"crypto/tls"
 	"errors"
 	"io"
 	"net"
@@ -328,4 +329,124 @@ func verif_C20_races() {
 
 // verif_C20_lmtp_case: no deadlock whatever the spelling of the recipients (see
 // verifLMTPCase in zz_verif_c13.go).
-func verif_C20_lmtp_case() { verifLMTPCase("C20") }
+func verif_C20_lmtp_case()    { verifLMTPCase("C20") }
+func verif_C20_two_messages() { verifTwoMessages("C20") }
+
+// verifStartTLSClose: Server.Close from another goroutine while the connection
+// upgrades with STARTTLS (handshake succeeds) and greets again inside TLS; the
+// backend's Logout is slow (scheduling points around its effect). For C20, under
+// the happens-before monitor: no race between the upgrade and Conn.Close, no
+// deadlock, no goroutine left. For C08: every session logged out exactly once,
+// and only while live.
+func verifStartTLSClose(prop string) {
+	verifPreemptBound(verifBound(2, 3))
+	verifSchedForkBound(verifBound(4, 6))
+	be := &vbackend{logoutYield: true}
+	s, _ := verifServer(be)
+	s.TLSConfig = &tls.Config{}
+	pre := nondetBool()
+	plain := "EHLO p\r\n"
+	if pre {
+		plain += "MAIL FROM:<a@v>\r\n"
+	}
+	plain += "STARTTLS\r\n"
+	vc := &vconn{in: []byte(plain), final: io.EOF, tlsIn: []byte("EHLO i\r\nNOOP\r\n"), tlsFinal: io.EOF}
+	c := newConn(vc, s)
+	if prop == "C20" {
+		verifHB(true)
+	}
+	done := make(chan struct{})
+	go func() {
+		s.handleConn(c)
+		close(done)
+	}()
+	go func() {
+		s.Close()
+	}()
+	<-done
+	verifSettle()
+	verifObserve("tlsclose", pre)
+	if prop == "C08" {
+		live := map[int]bool{}
+		n := map[int]int{}
+		for _, e := range be.trace {
+			switch e.kind {
+			case "NewSession":
+				live[e.sess] = true
+			case "Logout":
+				n[e.sess]++
+				verifAssert(live[e.sess], prop+".starttls-close-logout-only-for-live-session")
+				live[e.sess] = false
+			}
+		}
+		for id := 1; id <= be.sessions; id++ {
+			verifAssert(n[id] == 1, prop+".starttls-close-exactly-one-logout-per-session")
+		}
+	}
+	verifAssert(verifGoroutinesAlive() == 0, prop+".starttls-close-no-goroutine-left")
+	verifReach(prop + ".starttls-close-end")
+}
+
+func verif_C20_starttls_close_stub() { verifStartTLSClose("C20") }
+
+// verif_C20_stop_vs_accept: Shutdown (or Close) starts in another goroutine
+// while Serve is still accepting - the listener hands out 0..1 (quick) / 0..2 (thorough) connections
+// (peer gone at once, or held open until released) before it goes idle. Under
+// the happens-before monitor, which also knows sync.WaitGroup's rule that an
+// Add from zero must happen before Wait: no race, no deadlock, Serve returns,
+// the stop call returns, nothing is left running and every accepted connection
+// has been closed or has finished.
+func verif_C20_stop_vs_accept() {
+	verifPreemptBound(verifBound(1, 2))
+	verifSchedForkBound(verifBound(3, 4))
+	n := verifChoice(verifBound(2, 3))
+	l := &vlistener{closed: make(chan struct{})}
+	for i := 0; i < n; i++ {
+		l.script = append(l.script, []int{3, 2}[verifChoice(2)])
+	}
+	be := &vbackend{}
+	s, _ := verifServer(be)
+	useShutdown := nondetBool()
+	idle := make(chan struct{})
+	l.onIdle = func() { close(idle) }
+	verifHB(true)
+	stopped := make(chan struct{})
+	var stopErr error
+	go func() {
+		if useShutdown {
+			ctx := &vctx{done: make(chan struct{})}
+			go func() {
+				// the peers go away once the listener has handed out its last
+				// connection (or has been closed), while Shutdown waits
+				select {
+				case <-idle:
+				case <-l.closed:
+				case <-stopped:
+				}
+				for _, c := range l.conns {
+					c.release()
+				}
+			}()
+			stopErr = s.Shutdown(ctx)
+		} else {
+			stopErr = s.Close()
+		}
+		close(stopped)
+	}()
+	err := s.Serve(l)
+	<-stopped
+	// whatever was accepted but never released is released now
+	for _, c := range l.conns {
+		c.release()
+	}
+	verifSettle()
+	verifObserve("c20sva", n, useShutdown)
+	// Serve either ran and was ended by the stop call (nil, its listener
+	// closed), or found the server closed already and said so
+	verifAssert(stopErr == nil && (err == nil || err == ErrServerClosed), "C20.stop-vs-accept-both-return")
+	if err == nil {
+		verifAssert(l.closes >= 1, "C20.stop-vs-accept-listener-closed")
+	}
+	verifAssert(verifGoroutinesAlive() == 0, "C20.stop-vs-accept-no-goroutine-left")
+	verifReach("C20.stop-vs-accept-end")
+}
